@@ -349,16 +349,22 @@ def renormalise_kept(ctx, res: Result, fi: FuncInfo, rule: str, inst: str, ok_ms
                 continue
             any_div = True
             dname = src(r.args[0].func.value)
-            x, iters = d, []
+            x, iters, filtered = d, [], []
+            prev = d
             while x is not None and x is not fn:
-                x = par.get(x)
+                prev, x = x, par.get(x)
                 if isinstance(x, ast.For):
                     iters.append((x.target, x.iter))
                 elif isinstance(x, (ast.DictComp, ast.ListComp, ast.GeneratorExp)):
                     iters += [(g.target, g.iter) for g in x.generators]
+                    filtered += [c for g in x.generators for c in g.ifs]
+                elif isinstance(x, ast.If) and prev in x.body + x.orelse and iters == []:
+                    filtered.append(x.test)  # the division itself is conditional inside the loop
             same = [tg for tg, it in iters if src(it) == f"{dname}.items()" and isinstance(tg, ast.Tuple) and len(tg.elts) == 2 and src(tg.elts[1]) == src(d.left)]
             other = [it for tg, it in iters if src(it).endswith(".items()") and src(it) != f"{dname}.items()"]
-            if same:
+            if same and filtered:
+                verdict, why = False, f"only the entries of `{dname}` passing `{src(filtered[0])[:50]}` are kept, but they are divided by the sum of all of `{dname}`: the kept weights no longer sum to one"
+            elif same:
                 verdict = True
             elif other and verdict is None:
                 verdict, why = False, f"weights of `{src(other[0])}` are divided by the sum of `{dname}`"
